@@ -385,8 +385,8 @@ PROPERTIES = {
         'run': run_C04, 'modules': ['print', 'tables'],
         'explanation':
             "Writer/reader agreement and buffer independence only; numbers are NOT decided. TAB5c: every escape letter the "
-            "printer can emit is decoded by the parser to the byte it stands for (both tables extracted, printer checked against "
-            "RFC 8259). TAB5b: for every byte value 1..255 the counting pass reserves exactly what the emitting pass writes, so "
+            "printer can emit is decoded by the parser to the byte it stands for (parser table extracted; the printer's text per byte value computed by "
+            "byte-set path exploration of its emitting loop and checked against RFC 8259). TAB5b: for every byte value 1..255 the counting pass reserves exactly what the emitting pass writes, so "
             "the closing quote lands where it should; quote, backslash and all control bytes are escaped and nothing else is. "
             "OUT1/OUT2: every output write goes through an ensure() result and stays within the request. OUT3: at every next "
             "request/printer call the offset has been advanced by exactly the bytes written before the terminator, which is "
@@ -570,7 +570,8 @@ PROPERTIES = {
             "minify_string: a read json[k] needs k bytes proven not to be the terminator, an advance by c needs c such "
             "bytes (the cursor never steps over the terminator); callee requirements (comment skippers need 2, "
             "minify_string 1) are inferred and checked at the three call sites. OUT6: the write cursor never overtakes "
-            "the read cursor (lag >= 0 on every path, callee net lag >= 0), every store lands on a byte already read. "
+            "a read cursor that is still in use (difference bounds between all character cursors, lag >= 0 on every path, "
+            "callee net lag >= 0), every store lands on a byte already read. "
             "OUT5: no gap in the output. BND6: each loop advances the read cursor. TAB13: the string scanner consumes "
             "the byte after a backslash whatever it is. TAB19: each comment skipper steps over its opener, recognises its closer at "
             "the cursor (bytes 0..len-1 against '*/' resp. newline) and consumes exactly the closer.",
@@ -614,9 +615,10 @@ PROPERTIES = {
         'explanation':
             "Structural necessary conditions of RFC 6901 resolution and of pointer construction, on every function "
             "reachable from the pointer entry points. TAB8: every two-sided range test with literal bounds bounds one and "
-            "the same element (the array-index digit loop). TAB9: the four escape tables (encoder, encoded-length, "
-            "in-place decoder, comparing tokeniser) are extracted from the code and must agree with each other and "
-            "with RFC 6901 (~0<->~, ~1<->/). TAB11: the case_sensitive flag is passed unchanged to every callee that "
+            "the same element (the array-index digit loop). TAB9: the four escape routines (encoder, encoded-length, "
+            "in-place decoder, comparing tokeniser) are followed path by path with the set of values the bytes under "
+            "their cursors can have; for every byte value 1..255 what each writes, counts, consumes and accepts must agree "
+            "with the others and with RFC 6901 (~0<->~, ~1<->/, everything else verbatim, no other ~x). TAB11: the case_sensitive flag is passed unchanged to every callee that "
             "takes one and no case-folding function is reachable while it is true. OUT7: every block filled with a "
             "pointer string is sized, term by term (strlen / encoded length of the same key / 20 digits / literals / "
             "terminator), for what sprintf/encode/strcat write. OUT5: the encoder's write cursor leaves no gap. "
